@@ -234,6 +234,19 @@ CLAIMED = {
         "Trusted: Coq kernel; float arithmetic of the implementation outside the exactness filter is not modelled; the "
         "isclose band is C07's known finding; h5py reads of the computed slices are C06.",
         "DESIGN.md section 5 C08", TECH),
+    "C17": (
+        "Coq theorems over a durability machine (live content; on-disk content unspecified after any write, made equal to the "
+        "live content by the HDF5 flush and close): for EVERY history of writes, reads and earlier flushes, flush() followed by "
+        "reads only, or close(), and then a kill leaves exactly the content the history's writes produced. File.flush / "
+        "File.close are the call sequences translated from nixio/file.py by ast on every run (fail closed), so the theorems are "
+        "re-checked against what the code says now. Tie / experiment: writer processes run generated histories plus compressed "
+        "and uncompressed arrays grown by appends, save the state aside, call flush() or close() and SIGKILL themselves; fresh "
+        "processes open the file read-only and read-write and compare the canonical walk and every array's content; the writers' "
+        "histories are also compared with the store model.",
+        "PARTIAL by nature: what H5Fflush/H5Fclose do to the bytes on disk (metadata cache, chunk cache, the operating system's "
+        "page cache under SIGKILL - not power loss) is an assumption of the model, exercised by the experiment on this file "
+        "system, not proven; kills BETWEEN a write and the flush are outside the property.",
+        "DESIGN.md section 5 C17", TECH),
 }
 
 PENDING_REASON = ("check not built yet in this revision (work in progress: the property is meant to be decided by Coq "
